@@ -11,6 +11,7 @@ class Clause(object):
         self.label = label
         self.lineno = lineno
         self.extra = extra
+        self.hide = ()      # spec functions kept opaque (declared, not defined) in this clause's queries
 
 
 class Contract(object):
@@ -268,6 +269,11 @@ class Registry(object):
                 if len(args) > i and isinstance(args[i], ast.Constant) and isinstance(args[i].value, str):
                     return args[i].value
                 return default
+            hide = ()
+            for kw in call.keywords:
+                if kw.arg == 'hide':
+                    hide = tuple(ast.literal_eval(kw.value))
+            n_before = sum(len(x) for x in (c.requires, c.ensures, c.raises, c.exit_hints)) + sum(len(v) for v in c.invariants.values()) + sum(len(v) for v in c.loop_hints.values())
             if k == 'requires':
                 c.requires.append(Clause('requires', args[0], lab(1, 'pre%d' % len(c.requires)), st.lineno))
             elif k == 'ensures':
@@ -308,6 +314,10 @@ class Registry(object):
                     c.options[kw.arg] = ast.literal_eval(kw.value)
             else:
                 raise SyntaxError('%s:%d: unknown clause %s' % (path, st.lineno, k))
+            if hide:
+                for lst in [c.requires, c.ensures, c.raises, c.exit_hints] + list(c.invariants.values()) + list(c.loop_hints.values()):
+                    if lst and lst[-1].lineno == st.lineno:
+                        lst[-1].hide = hide
         return c
 
     # class helpers
